@@ -11,6 +11,8 @@ package parser
 // always on a token (the token list ends with EOF and is never empty).
 //@ typeinv parser 0 <= self.pos && self.pos < len(self.tokens)
 //@ sweep C10 cedar_unmarshal.go
+// The text encoder must accept every AST a decoder or a builder can produce.
+//@ sweep C10 cedar_marshal.go wellformed
 
 // The tokenizer always ends the token list with EOF (assumed here; the
 // scanner itself is the subject of C18).
